@@ -132,7 +132,11 @@ func (w *webWriter) writeTrailer() error {
 func (w *webWriter) flushWithTrailer() {
 	// Write trailers only if message has been sent.
 	if w.wroteHeader || w.wroteResp {
-		if err := w.writeTrailer(); err != nil {
+		err := w.writeTrailer()
+		if c, ok := w.resp.(io.Closer); ok {
+			c.Close() //nolint // flush the last base64 group of a gRPC-web-text body
+		}
+		if err != nil {
 			return // nothing
 		}
 	}
